@@ -51,7 +51,11 @@ impl Cache for RecCache {
     type State = St;
     fn initialize(&mut self, _: &dyn Problem<State = St>) {}
     fn get_threshold(&self, s: &St, d: usize) -> Option<Threshold> {
-        self.inner.get_threshold(s, d)
+        let r = self.inner.get_threshold(s, d);
+        if r.is_some() {
+            note("cache_hit_in_compile");
+        }
+        r
     }
     fn update_threshold(&self, s: Arc<St>, d: usize, v: Cost, e: bool) {
         self.log.lock().unwrap().push((*s, d));
@@ -453,7 +457,7 @@ fn body_c09<D: Dd>(c: &DdCase, t: &Table, root_sp: &SubProblem<St>, lb: Cost, _l
     let mut open: Vec<SubProblem<St>> = vec![];
     let mut r = Rng(c.hist_seed ^ 0xc09);
     let mut node = root_sp.clone();
-    for step in 0..(1 + c.history.min(2)) {
+    for step in 0..(1 + c.history.min(4)) {
         // as SequentialSolver::process_one_node does
         t.reset_monitor();
         let inp = CompilationInput { comp_type: CompilationType::Restricted, problem: t, relaxation: t, ranking: &ranking, cutoff: &cutoff, max_width: c.width, residual: &node, best_lb, cache: &cache, dominance: &dominance };
@@ -477,11 +481,12 @@ fn body_c09<D: Dd>(c: &DdCase, t: &Table, root_sp: &SubProblem<St>, lb: Cost, _l
             eprintln!("step {} node=({:?},{}) value={:?} best_lb={:?} open={:?}", step, node.state, node.depth, node.value, best_lb, open.iter().map(|o| (*o.state, o.depth, o.value, o.ub)).collect::<Vec<_>>());
         }
         check_thresholds(t, &cache, &open, best_lb);
-        if open.is_empty() || step == c.history.min(2) {
+        if open.is_empty() || step == c.history.min(4) {
             break;
         }
-        // next node: seeded choice among the open ones, skipped when the cache says so (as at pop time)
-        let k = r.below(open.len() as u64) as usize;
+        // next node: oldest first (siblings of one diagram: maximal re-convergence) or a seeded choice;
+        // skipped when the cache says so (as at pop time)
+        let k = if c.hist_seed % 2 == 0 { 0 } else { r.below(open.len() as u64) as usize };
         node = open.remove(k);
         if !cache.must_explore(&node) {
             note("skipped_by_cache");
